@@ -1,9 +1,13 @@
 import NodisVerif.Model.Proto
 /-
-  tx.go (`Tx.acquire`, `lockKeys`, `newKey`, `delKey`, `commit`): the locking CODE of nodis as a small-step
+  tx.go (`Tx.acquire`, `lockKeys`, `newKey`, `delKey`, `commit`) and the one-record mini transactions of store.go /
+  key.go (`gcRecord`, `flushRecord`, the visit of Keys / Scan): the locking CODE of nodis as a small-step
   interleaving semantics.  `Model/Proto.lean` is the locking PROTOCOL (the steps the verifTrace hook reports);
   this file is the program that takes those steps.  Props/C05-C07 prove that every run of this program, under
-  every schedule, emits a trace that `Proto.step` accepts (`prog_refines_proto`).
+  every schedule, emits a trace that `Proto.step` accepts (`C05.prog_refines_proto`), that every event is emitted
+  inside its critical section, and that some active thread can always move (`C06.prog_progress`).
+  Not here: `store.clear` (protocol level only).  The recorded traces of the scenario runs are replayed against
+  this model on every run of C05 / C06 / C07 (`driver txprog`, Driver/TxProgOps.lean).
 
   Shared state   index / pending (the two maps of `store`, guarded by `store.mu`), the name of every record
                  ever allocated (`m.key.Name`, never changes), per record the state bit KeyStateNormal
@@ -20,7 +24,7 @@ import NodisVerif.Model.Proto
   What is abstracted: values (only `value != nil`), time (whether a command finds its key expired is its
   choice to call `newKey`), access counts, storage; `m.writeable` is kept per holder (`Hold.mode` in
   `lockedMetas`): the field is written only by the exclusive owner of the record's mutex and read only by
-  owners.  See DESIGN_NOTES_T.md for the statement-to-pc table.
+  owners.  See DESIGN_NOTES_T.md for the statement-to-pc table (Go line → pc) and the list of fused statements.
 -/
 namespace NodisVerif.TxProg
 open NodisVerif.Proto (Key Rec Mode Ev Hold assoc erase put)
